@@ -360,8 +360,26 @@ def check(run: Run) -> None:
         if len(fwd) != 1 or not fwd[0].args or cn(fwd[0].args[-1]) != "sampled":
             run.finding("C12.l", "bind_branch_inputs:ordinary-path-not-forwarding", "bind_nested_input_to_source must receive the `sampled` argument unchanged", loc=fa.loc(fa.body))
 
+    with run.obligation("C12.m", "K7", "a freshly selected branch is shown every held input that HAS a value: the three arms of nested_input_binding_has_sampled_active_target "
+                        "(target path, whole non-bundle input, per field of a bundle) all decide with `active && valid()` - a stricter test (all_valid) leaves a branch fed by a "
+                        "collection with one element that never ticked silent until the collection ticks again; the rule of the inlined node is valid(), see C03.c"):
+        NBH = "include/hgraph/runtime/nested_bindings.h"
+        fa = R.fn(run, NBH, "nested_input_binding_has_sampled_active_target")
+        cn = R.aliases_of(fa)
+        decisions = [cn(r.e).replace(" ", "") for r in R.find(fa, lambda x: isinstance(x, C.Return)) if r.e is not None and ("valid" in cn(r.e))]
+        decisions += [cn(s0.cond).replace(" ", "") for s0 in fa.body.walk() if isinstance(s0, C.If) and "valid()" in cn(s0.cond) and "active" in cn(s0.cond)]
+        run.sites(len(decisions), 3, "sampling decisions")
+        for d in decisions:
+            run.count(1, "C12.m")
+            tests = set(re.findall(r"\.(\w*valid\w*)\(\)", d))
+            if tests != {"valid"}:
+                run.finding("C12.m", f"nested_input_binding_has_sampled_active_target:validity-test:{'+'.join(sorted(tests))}", f"the sampling decision `{d}` tests "
+                            f"{sorted(tests)} instead of valid(): a held input that is valid but not all-valid (a list / bundle / dictionary with an element that has "
+                            "never ticked) is not sampled when a branch (or any nested graph) starts, although the same consumer inlined would have been evaluated", loc=fa.loc(fa.body))
+
 
 VARIANTS = [
+    {"id": "m-seed-C12-5-sampling-requires-all-valid", "expect": "C12.m", "edits": [{"file": "include/hgraph/runtime/nested_bindings.h", "find": "    return active && (input.valid() || accepts_invalid);", "replace": "    return active && (input.all_valid() || accepts_invalid);"}]},
     {"id": "l-key-set-path-always-sampled", "expect": "C12.l", "edits": [{"file": SW, "find": "      if (sampled) {\n        bind_sampled_input_to_source(std::move(target), source,\n                                     evaluation_time);\n      } else {\n        bind_input_to_source(std::move(target), source);\n      }", "replace": "      bind_sampled_input_to_source(std::move(target), source,\n                                   evaluation_time);"}]},
     {"id": "l-ordinary-path-always-sampled", "expect": "C12.l", "edits": [{"file": SW, "find": "      bind_nested_input_to_source(std::move(target), std::move(source),\n                                  evaluation_time, sampled);", "replace": "      bind_nested_input_to_source(std::move(target), std::move(source),\n                                  evaluation_time, true);"}]},
     {"id": "k-reload-flag-not-in-equality", "expect": "C12.k", "edits": [{"file": "include/hgraph/lib/std/operators/higher_order.h", "find": "            return cases == other.cases && default_branch == other.default_branch &&\n                   reload_on_ticked == other.reload_on_ticked;", "replace": "            return cases == other.cases && default_branch == other.default_branch;"}]},
